@@ -113,7 +113,10 @@ def any_ann(draw, knames, p_dep=0.3, depth=1):
 def nested_mixed_ann(draw, knames):
     """& / | combinations, up to depth 2, whose members mix classes and value-dependent types of different bounds"""
     simple_dep = dependent_ann(knames, kinds=["dep"] * 3 + ["lit"] * 3 + ["startswith", "endswith", "haskey"])
-    leaf = st.one_of(simple_dep, simple_dep, st.sampled_from([["cls", n] for n in list(knames)[:3]] + [["cls", "int"], ["cls", "str"]]))
+    leaf = st.one_of(simple_dep, simple_dep, st.sampled_from([["cls", n] for n in list(knames)[:3]] + [["cls", "int"], ["cls", "str"]]),
+                     # class-level special types next to value-dependent members
+                     st.sampled_from([["exactly", "int"], ["strict", "int"], ["hasmethod", "mA"], ["hasmethod", "__len__"]]
+                                     + [["exactly", n] for n in list(knames)[:2]]))
     inner = st.tuples(st.sampled_from(["union", "inter"]), st.lists(leaf, min_size=2, max_size=2, unique_by=repr)).map(list)
     op = draw(st.sampled_from(["union", "inter"]))
     members = draw(st.lists(st.one_of(leaf, inner), min_size=2, max_size=3, unique_by=repr))
